@@ -1762,6 +1762,17 @@ func indirectInterface(v reflect.Value) reflect.Value {
 
 // indirectEface is the same as indirectInterface, but only indirects through v if its type
 // is the empty interface and its value is not nil.
+// mapIndex looks key up in m. A key whose type is comparable may still hold something that is not (a slice
+// inside an interface field): Go panics when it hashes it, which is reported like every other unusable key.
+func mapIndex(m, key reflect.Value, keyAsStr string) (value reflect.Value, err error) {
+	defer func() {
+		if r := recover(); r != nil {
+			value, err = reflect.Value{}, fmt.Errorf("can't use %s (%s) as key for map of type %s: %v", keyAsStr, key.Type(), m.Type(), r)
+		}
+	}()
+	return indirectEface(m.MapIndex(key)), nil
+}
+
 // convertTo converts v to typ if that is possible. Whether it is cannot always be told from the types alone:
 // a slice converts to an array (pointer) only if it is long enough, and reflect panics when it is not.
 func convertTo(v reflect.Value, typ reflect.Type) (converted reflect.Value, ok bool) {
@@ -1928,7 +1939,7 @@ func resolveIndex(v, index reflect.Value, indexAsStr string) (reflect.Value, err
 			// or truncates to is another key; this one is not in the map
 			return reflect.Value{}, nil
 		}
-		return indirectEface(v.MapIndex(index)), nil
+		return mapIndex(v, index, indexAsStr)
 	case reflect.Ptr:
 		etyp := v.Type().Elem()
 		if etyp.Kind() == reflect.Struct && indexIsStr {
